@@ -274,6 +274,9 @@ def check_cross(m, run):
     key = fi.key + ' :: a x b'
     try:
         val = rets[-1].value
+        if not sub.closed_form(val):
+            run.note('AL1.cross-product', key, 'result depends on loop-carried locals: identity not decidable in this form (not an obligation)')
+            return
         if isinstance(val, ast.Name):
             val = sub.definition(val.id)
         if not isinstance(val, (ast.List, ast.Tuple)) or len(val.elts) != 3:
@@ -298,7 +301,7 @@ def check_binomial(m, run):
     rets = [r for r in sub.returned()]
     main = [r for r in rets if not is_zero_const(r.value)]
     key = fi.key + ' :: k!/(i!(k-i)!)'
-    if len(main) != 1:
+    if len(main) != 1 or not sub.closed_form(main[0].value):
         run.note('AL2.binomial', key, 'not a single closed-form return (loop form): identity not decidable, not an obligation')
         return
     try:
@@ -330,6 +333,9 @@ def check_is_left(m, run, rule):
     sub = Subst(fi.node)
     rets = sub.returned()
     key = fi.key + ' :: (p1-p0) x (p2-p0)'
+    if not rets or not sub.closed_form(rets[-1].value):
+        run.note(rule, key, 'not a closed-form return: not decidable (no obligation)')
+        return
     try:
         got = sub.poly(rets[-1].value)
     except (NotPoly, Undecidable, IndexError) as ex:
